@@ -188,6 +188,12 @@ func IntProps(propContainer map[string]object.PanObject) map[string]object.PanOb
 			) object.PanObject {
 				self, other, err := checkIntInfixArgs(args, "**", object.NewPanInt(1))
 				if err == nil {
+					// NOTE: float power is inexact for results larger than 2**53
+					if exact, ok := exactIntPow(self.Value, other.Value); ok {
+						// NOTE: Int's descendants also call this
+						return object.NewInheritedInt(args[0].Proto(), exact)
+					}
+
 					res := math.Pow(float64(self.Value), float64(other.Value))
 					// check if f is integer
 					if math.Floor(res) == res {
@@ -488,6 +494,37 @@ func checkIntInfixArgs(
 	}
 
 	return self, other, nil
+}
+
+// exactIntPow returns base**exp if exp is not negative and the power fits in int64.
+func exactIntPow(base, exp int64) (int64, bool) {
+	if exp < 0 {
+		return 0, false
+	}
+
+	switch base {
+	case 0, 1:
+		if exp == 0 {
+			return 1, true
+		}
+		return base, true
+	case -1:
+		if exp%2 == 0 {
+			return 1, true
+		}
+		return -1, true
+	}
+
+	// NOTE: |base| >= 2 cannot fit in int64 if exp is larger than 63
+	if exp > 63 {
+		return 0, false
+	}
+
+	res := new(big.Int).Exp(big.NewInt(base), big.NewInt(exp), nil)
+	if !res.IsInt64() {
+		return 0, false
+	}
+	return res.Int64(), true
 }
 
 func formattedIntStr(self *object.PanInt, kwargs *object.PanObj) object.PanObject {
